@@ -40,6 +40,7 @@ type SpecEnv struct {
 	what    string
 	rdepth  int // nesting depth of representation-clause expansion
 	bound   []string
+	inOld   bool // evaluating inside old(): parameter names denote their entry values
 }
 
 func (env *SpecEnv) child() *SpecEnv {
@@ -297,6 +298,14 @@ func (env *SpecEnv) lookupVar(name string) Val {
 	}
 	// locals of the frame
 	if env.f != nil {
+		if env.inOld {
+			// inside old(): a parameter (possibly copied into an address-taken cell that did not exist at entry) is its entry value
+			for i, p := range env.f.fn.Params {
+				if p.Name() == name && i < len(env.f.params) {
+					return env.f.params[i]
+				}
+			}
+		}
 		if v, ok := env.f.resolveName(name, env.cur); ok {
 			return v
 		}
@@ -423,6 +432,9 @@ func (env *SpecEnv) binop(e *SExpr) Val {
 		return Val{T: app(e.Name, a.T, b.T), S: SBool}
 	case "+":
 		if a.S == SStr && b.S == SStr {
+			if env.mentionsBound(a.T) || env.mentionsBound(b.T) {
+				return Val{T: app("str_cat", a.T, b.T), S: SStr, GT: types.Typ[types.String]}
+			}
 			return Val{T: env.ex.strCat(a.T, b.T), S: SStr, GT: types.Typ[types.String]}
 		}
 		fallthrough
@@ -509,6 +521,14 @@ func (env *SpecEnv) field(e *SExpr) Val {
 				case *types.Slice:
 					if !isByteSlice(fl.T) {
 						ex.vc.Assume(implies(guard, fmt.Sprintf("(<= (arr_%s %s) %s)", fl.Sort, term, brk)))
+					}
+				}
+			}
+			// machine integers stored in allocated objects are within their type's range
+			if refTerm != "" {
+				if b, ok := fl.T.Underlying().(*types.Basic); ok && b.Info()&types.IsInteger != 0 {
+					for _, inv := range ex.reg.TypeInv(cur.T, fl.T, 0) {
+						ex.vc.Assume(implies(fmt.Sprintf("(<= %s %s)", refTerm, env.cur.brk), inv))
 					}
 				}
 			}
@@ -634,6 +654,11 @@ func (env *SpecEnv) specTypeOf(e *SExpr, v Val) *SType {
 	if e.Op == "update" {
 		return env.specTypeOf(e.Args[0], v)
 	}
+	if e.Op == "index" {
+		if st := env.specTypeOf(e.Args[0], v); st != nil {
+			return st.Elem
+		}
+	}
 	return nil
 }
 
@@ -658,6 +683,7 @@ func (env *SpecEnv) call(e *SExpr) Val {
 	case "old":
 		n := *env
 		n.cur = env.old
+		n.inOld = true
 		return n.Eval(e.Args[0])
 	case "len":
 		v := arg(0)
@@ -747,6 +773,22 @@ func (env *SpecEnv) call(e *SExpr) Val {
 			env.fail("fresh() outside ensures")
 		}
 		return Val{T: and(fmt.Sprintf("(< %s %s)", env.brkPre, r), fmt.Sprintf("(<= %s %s)", r, env.brkPost)), S: SBool}
+	case "nilbytes":
+		return Val{T: "bytes_nil", S: SBytes, GT: types.NewSlice(types.Typ[types.Uint8])}
+	case "isnew":
+		// isnew(x): the reference x (evaluated in the current state) was allocated after function entry
+		v := arg(0)
+		var r string
+		switch {
+		case isSliceSort(v.S):
+			r = app("arr_"+string(v.S), v.T)
+		default:
+			r = env.ref(v, e.Args[0])
+		}
+		if ex.entry == nil {
+			env.fail("isnew outside a function")
+		}
+		return Val{T: fmt.Sprintf("(> %s %s)", r, ex.entry.brk), S: SBool}
 	case "allocated":
 		v := arg(0)
 		r := env.ref(v, e.Args[0])
@@ -800,6 +842,9 @@ func (env *SpecEnv) call(e *SExpr) Val {
 		return Val{T: env.ref(v, e.Args[0]), S: SInt}
 	case "cat":
 		a, b := arg(0), arg(1)
+		if env.mentionsBound(a.T) || env.mentionsBound(b.T) {
+			return Val{T: app("str_cat", a.T, b.T), S: SStr, GT: types.Typ[types.String]}
+		}
 		return Val{T: ex.strCat(a.T, b.T), S: SStr, GT: types.Typ[types.String]}
 	case "emptymap":
 		// emptymap("K","V") constant-false / default array
@@ -821,10 +866,30 @@ func (env *SpecEnv) call(e *SExpr) Val {
 	if strings.HasPrefix(e.Name, "@") {
 		// raw SMT function application
 		var as []string
+		var ss []Sort
 		for i := range e.Args {
-			as = append(as, arg(i).T)
+			v := arg(i)
+			as = append(as, v.T)
+			ss = append(ss, v.S)
 		}
-		return Val{T: app(e.Name[1:], as...), S: SInt}
+		rs := SInt
+		switch {
+		case e.Name == "@f64_lt" || e.Name == "@f64_le":
+			rs = SBool
+		case strings.HasPrefix(e.Name, "@f64_"):
+			rs = SF64
+		case e.Name == "@str_sub" || e.Name == "@str_cat":
+			rs = SStr
+		case strings.HasSuffix(e.Name, "_str"):
+			rs = SStr
+		case strings.HasSuffix(e.Name, "_bool"), strings.HasSuffix(e.Name, "_lt"):
+			rs = SBool
+		}
+		// functions that are not part of the fixed prelude are declared on first use
+		if !strings.Contains(preludeFixed, "-fun "+e.Name[1:]+" ") && !strings.Contains(preludeFixed, "(declare-fun "+e.Name[1:]+" ") {
+			reg.UFun(e.Name[1:], ss, rs)
+		}
+		return Val{T: app(e.Name[1:], as...), S: rs}
 	}
 	// model field
 	if m := ex.P.models[e.Name]; m != nil {
@@ -857,6 +922,9 @@ func (env *SpecEnv) ghostCall(g *GhostFunc, e *SExpr) Val {
 			if v.S == "Nil" {
 				v, _ = env.unifyNil(v, Val{S: pt.S})
 			}
+			if v.S != pt.S && pt.S == SIface && v.GT != nil {
+				v = Val{T: ex.ifaceOfValue(v), S: SIface}
+			}
 			if v.S != pt.S {
 				env.fail("%s: argument %d has sort %s, want %s", g.Name, i, v.S, pt.S)
 			}
@@ -875,6 +943,9 @@ func (env *SpecEnv) ghostCall(g *GhostFunc, e *SExpr) Val {
 		pt := genv.resolveType(p.Type)
 		if v.S == "Nil" {
 			v, _ = env.unifyNil(v, Val{S: pt.S})
+		}
+		if v.S != pt.S && pt.S == SIface && v.GT != nil {
+			v = Val{T: ex.ifaceOfValue(v), S: SIface}
 		}
 		if v.GT == nil || pt.GT != nil {
 			v.GT = pt.GT
